@@ -85,9 +85,6 @@ def gcp_opt(  # noqa:  PLR0912,PLR0913
     else:
         nmissing = 0
 
-    # Create initial guess
-    M0 = _get_initial_guess(data, rank, init)
-
     if not isinstance(optimizer, (StochasticSolver, LBFGSB)):
         raise ValueError("Must select a supported optimizer.")
 
@@ -96,6 +93,9 @@ def gcp_opt(  # noqa:  PLR0912,PLR0913
 
     if isinstance(optimizer, StochasticSolver) and mask is not None:
         raise ValueError("Mask isn't supported for stochastic solves")
+
+    # Create initial guess (only once the request has been accepted)
+    M0 = _get_initial_guess(data, rank, init)
 
     # Welcome Message
     if printitn > 0:
